@@ -205,7 +205,7 @@ class Bounds:
     size_max: int = 3
     idx_min: int = -2
     idx_max: int = 4
-    unroll_cap: int = 10
+    unroll_cap: int = 12
     stmt_budget: int = 1500
     win_stride_max: int = 0  # 0: window args get symbolic strides >= 1 w/o upper bound
 
@@ -443,7 +443,10 @@ class SymExec:
             if nm == "fmaxf":
                 return z3.If(xs[0] >= xs[1], xs[0], xs[1]), d
             if nm == "sigmoid":
-                return 1 / (1 + uf("exp")(-xs[0])), d
+                ex_ = uf("exp")(-xs[0])
+                # exp is positive: keeps the denominator away from 0 (z3's x/0 is unspecified)
+                self.inp.assumptions.append(ex_ > 0)
+                return 1 / (1 + ex_), d
             if nm in ("sin", "expf", "sqrt"):
                 return uf(nm)(xs[0]), d
             return uf(nm, len(xs))(*xs), d
